@@ -141,6 +141,24 @@ Example ex_gfile_arith_valid :
   /\ forallb (fun b => negb (sb_adv b)) (sf_batches ex_gfile) = true.
 Proof. vm_compute. split; reflexivity. Qed.
 
+
+(* an ADV file (File.Validate reads nothing but the totals: input_wf is the hypothesis): two ADV
+   batches numbered 4 and 9, split into a credit and a debit ADV file that keep the numbers *)
+Definition ex_advfile : sfile :=
+  mksf 121042882 231380104
+       [ mksb true 280 4 7 50 70 [mkentry 81 50 1%N 0%N; mkentry 82 70 2%N 0%N]
+       ; mksb true 280 9 7 0 5 [mkentry 88 5 3%N 0%N] ]
+       [] 50 75.
+
+Example ex_advfile_segments :
+  validate ST ex_advfile = None /\ input_wf ST ex_advfile = true /\ is_adv_file (sf_batches ex_advfile) = true
+  /\ match segment ST ex_advfile with
+     | SOk cf df => map sb_num (sf_batches cf) = [4] /\ map sb_num (sf_batches df) = [4; 9]
+                    /\ sf_credit cf = 50 /\ sf_debit df = 75
+     | SErr _ => False
+     end.
+Proof. vm_compute. repeat split; reflexivity. Qed.
+
 (* ---- category-uniformity is needed for the union ------------------------------------------- *)
 
 (* one mixed batch: a returned credit (labelled Return) and a debit labelled NOC.  Batch.isCategory
